@@ -62,6 +62,15 @@ CHECKS = {
         "Trusted: mc/refs/grid.py; expression depth <= 3 layers; delta is demanded on aligned geometries only (misaligned ones are a listed known finding).",
         "DESIGN.md §4 C02",
     ),
+    "C05": (
+        MC,
+        "bounded-exhaustive enumeration of byte streams x all cut sets x deviation-bounded time-out firing, through the real Screen.parse_input under a fake event loop, against an independent reference decoder",
+        "Every byte string over a 24-byte alphabet up to the length bound in three encoding modes, every documented sequence / mouse / cursor report / "
+        "multi-byte character (alone, doubled, next to every alphabet byte, with single-byte substitutions) is decoded whole and in every fragmentation, "
+        "with the completion alarm firing or not after each cut; events, raw-byte accounting and alarm hygiene are compared with mc/refs/keyref.py.",
+        "Trusted: golden key table frozen from the pinned tree; xterm ctlseqs for mouse/CPR; time-outs fire only between reads; bounds in evidence.",
+        "DESIGN.md §4 C05",
+    ),
 }
 
 PENDING_REASON = "check not built yet in this round (see DESIGN.md Appendix B build order); no claim is made"
